@@ -1,0 +1,77 @@
+//go:build verif
+
+package intermediate
+
+import "time"
+
+// This file is compiled only with the "verif" build tag. It lets an external
+// verification harness emulate the passage of time and inspect the flow map and
+// the expiry queue. It adds no behaviour of its own.
+
+// VerifShiftDeadlines moves every queued deadline d into the past, which is
+// equivalent to the wall clock advancing by d. A uniform shift preserves the
+// heap order.
+func (a *AggregationProcess) VerifShiftDeadlines(d time.Duration) {
+	a.mutex.Lock()
+	defer a.mutex.Unlock()
+	for _, item := range a.expirePriorityQueue {
+		item.activeExpireTime = item.activeExpireTime.Add(-d)
+		item.inactiveExpireTime = item.inactiveExpireTime.Add(-d)
+	}
+}
+
+// VerifFlowInfo describes one entry of the flow map.
+type VerifFlowInfo struct {
+	Key            FlowKey
+	ReadyToSend    bool
+	Filled         bool
+	Retries        int
+	HasItem        bool
+	ItemIndex      int
+	ItemKey        FlowKey
+	ItemRefersBack bool
+	Active         time.Time
+	Inactive       time.Time
+}
+
+// VerifHeapInfo describes one slot of the expiry queue.
+type VerifHeapInfo struct {
+	Pos      int
+	Index    int
+	HasKey   bool
+	Key      FlowKey
+	Active   time.Time
+	Inactive time.Time
+}
+
+// VerifSnapshot returns a copy of the flow map and of the expiry queue, taken
+// under the process lock, together with the time at which it was taken.
+func (a *AggregationProcess) VerifSnapshot() ([]VerifFlowInfo, []VerifHeapInfo, time.Time) {
+	a.mutex.Lock()
+	defer a.mutex.Unlock()
+	flows := make([]VerifFlowInfo, 0, len(a.flowKeyRecordMap))
+	for k, rec := range a.flowKeyRecordMap {
+		fi := VerifFlowInfo{Key: k, ReadyToSend: rec.ReadyToSend, Filled: rec.areCorrelatedFieldsFilled, Retries: rec.waitForReadyToSendRetries}
+		if it := rec.PriorityQueueItem; it != nil {
+			fi.HasItem = true
+			fi.ItemIndex = it.index
+			if it.flowKey != nil {
+				fi.ItemKey = *it.flowKey
+			}
+			fi.ItemRefersBack = it.flowRecord == rec
+			fi.Active = it.activeExpireTime
+			fi.Inactive = it.inactiveExpireTime
+		}
+		flows = append(flows, fi)
+	}
+	hp := make([]VerifHeapInfo, 0, len(a.expirePriorityQueue))
+	for i, it := range a.expirePriorityQueue {
+		hi := VerifHeapInfo{Pos: i, Index: it.index, Active: it.activeExpireTime, Inactive: it.inactiveExpireTime}
+		if it.flowKey != nil {
+			hi.HasKey = true
+			hi.Key = *it.flowKey
+		}
+		hp = append(hp, hi)
+	}
+	return flows, hp, time.Now()
+}
